@@ -1,6 +1,7 @@
 package main
 
 import (
+	"go/token"
 	"fmt"
 	"go/constant"
 	"go/types"
@@ -63,8 +64,121 @@ func (fc *funcCtx) call(st *State, ins ssa.Instruction, com *ssa.CallCommon, isG
 		return fc.applyContract(st, ins, callee, con, args, bind, isGo), false
 	}
 	_ = pos
+	if !isGo && len(bind) == 0 {
+		if r, halt, ok := fc.tryInline(st, callee, args); ok {
+			return r, halt
+		}
+	}
 	fc.e.note("call to " + shortKey(key) + " has no contract: results arbitrary, reachable storage havocked")
 	return fc.unknownCall(st, com, args), false
+}
+
+// tryInline executes a module function that has no contract in place of the call, when it
+// is loop-free, defer-free and not (mutually) recursive: extracting a few statements into a
+// helper then needs no new contract. Its panic sites become obligations of the caller's run.
+func (fc *funcCtx) tryInline(st *State, callee *ssa.Function, args []Value) (res Value, halt bool, ok bool) {
+	if fc.inlineDepth >= 2 || callee == fc.fn || len(callee.Blocks) == 0 || callee.Pkg == nil || !strings.HasPrefix(callee.Pkg.Pkg.Path(), modPath) {
+		return nil, false, false
+	}
+	for _, b := range callee.Blocks {
+		for _, succ := range b.Succs {
+			if succ.Dominates(b) {
+				return nil, false, false // a loop needs an invariant
+			}
+		}
+		for _, ins := range b.Instrs {
+			switch x := ins.(type) {
+			case *ssa.Defer, *ssa.Go, *ssa.Select, *ssa.MapUpdate, *ssa.Send:
+				return nil, false, false
+			case *ssa.Store:
+				// only its own locals: a helper that writes through its arguments needs a contract (frame)
+				if _, own := x.Addr.(*ssa.Alloc); !own {
+					return nil, false, false
+				}
+			}
+		}
+	}
+	// a computation over plain values: parameters and results of basic types only
+	sig := callee.Signature
+	for i := 0; i < sig.Params().Len(); i++ {
+		if _, ok := scalarSort(sig.Params().At(i).Type()); !ok {
+			return nil, false, false
+		}
+	}
+	for i := 0; i < sig.Results().Len(); i++ {
+		if _, ok := scalarSort(sig.Results().At(i).Type()); !ok {
+			return nil, false, false
+		}
+	}
+	if sig.Recv() != nil {
+		return nil, false, false
+	}
+	e := fc.e
+	pos := e.fset.Position(callee.Pos())
+	var rets []inlineRet
+	con := &FuncContract{}
+	for _, p := range callee.Params {
+		con.Params = append(con.Params, p.Name())
+	}
+	fc2 := &funcCtx{e: e, fn: callee, key: funcKey(callee), con: con, loops: map[*ssa.BasicBlock]*Loop{}, src: e.source(pos.Filename), maxPath: 64,
+		siteOrd: map[string][]token.Pos{}, covered: map[*ssa.BasicBlock]bool{}, rename: map[string]string{}, inlineDepth: fc.inlineDepth + 1, collector: &rets}
+	fc2.indexSites()
+	fc2.ipdom = ipdoms(callee)
+	savedNamed := map[string]interface{}{}
+	for k, v := range st.named {
+		savedNamed[k] = v
+	}
+	st2 := st.clone()
+	for i, p := range callee.Params {
+		if i < len(args) {
+			st2.regs[p] = args[i]
+		}
+	}
+	aborted := false
+	func() {
+		defer func() {
+			if r := recover(); r != nil {
+				if ab, isAbort := r.(engineAbort); isAbort {
+					aborted = true
+					e.note("inlining " + shortKey(funcKey(callee)) + " abandoned: " + ab.msg)
+					return
+				}
+				panic(r)
+			}
+		}()
+		fc2.run(callee.Blocks[0], st2)
+	}()
+	if aborted {
+		return nil, false, false
+	}
+	e.note("call to " + shortKey(funcKey(callee)) + " (no contract, loop-free) is executed in place in " + shortKey(fc.key))
+	if len(rets) == 0 {
+		return nil, true, true // every path of the callee ends in a panic obligation
+	}
+	pack := func(rs []Value) Value {
+		switch len(rs) {
+		case 0:
+			return TupleV{}
+		case 1:
+			return rs[0]
+		}
+		return TupleV(rs)
+	}
+	var arrived []*State
+	for _, r := range rets {
+		r.st.cells["inline:ret"] = pack(r.res)
+		arrived = append(arrived, r.st)
+	}
+	merged, mok := fc.mergeStates(st, len(st.facts), len(st.decls), arrived)
+	if !mok {
+		e.note("inlining " + shortKey(funcKey(callee)) + " abandoned: its return paths cannot be merged")
+		return nil, false, false
+	}
+	out := merged.cells["inline:ret"]
+	delete(merged.cells, "inline:ret")
+	merged.named = savedNamed
+	*st = *merged
+	return out, false, true
 }
 
 func (fc *funcCtx) unknownCall(st *State, com *ssa.CallCommon, args []Value) Value {
